@@ -471,7 +471,7 @@ def make_TriangularMesh(obj, **kwargs) -> Union[Dict[str, Any], List[Dict[str, A
                     "to compute when the mesh has many faces, now applying operation..."
                 )
             is_disconnected = obj.check_disconnected()
-        elif mode == "selfintersecting":
+        elif mode == "selfintersecting" and show_mesh:
             if obj._status_selfintersecting is None:
                 warnings.warn(
                     f"Unchecked selfintersecting mesh status in {obj!r} detected, before "
